@@ -202,9 +202,10 @@ Fixpoint ac_outs (c : ac_cfg) (w : ac_walk) (outs : list ob_out) : ac_walk + Z :
                end
   end.
 
-(* end of the step: whoever still misses changes must sit behind a full NSTART window *)
+(* end of the step: whoever still misses changes must sit behind a full NSTART window or behind an
+   unfinished large transmission to its session *)
 Definition ac_settled (c : ac_cfg) (cnt : list (Z * Z)) (o : ac_obs) : bool :=
-  (acao_chg o =? 0) || (accf_nstart c <=? ob_ca_get cnt (acao_s o)).
+  (acao_chg o =? 0) || (accf_nstart c <=? ob_ca_get cnt (acao_s o)) || ob_in_transfer cnt (acao_s o).
 
 Definition ac_all_settled (c : ac_cfg) (cnt : list (Z * Z)) (rs : list ac_res) : bool :=
   forallb (fun r => forallb (ac_settled c cnt) (acar_obs r)) rs.
